@@ -1,6 +1,7 @@
 import Tahoe.Storage.ImmConnLemmas
 import Tahoe.Storage.ImmDirLemmas
 import Tahoe.Storage.ImmRangeLemmas
+import Tahoe.Storage.ImmTimeLemmas
 /-!
 C22 — immutable share storage semantics (property theorems only; helper lemmas live in
 `Tahoe/Storage/ImmLemmas.lean` and `Tahoe/Storage/ImmServerLemmas.lean`).
@@ -25,7 +26,7 @@ satisfies it, so the hypotheses `WF s` below are never vacuous restrictions.
 | … and releases its space reservation | `aborted_leaves_nothing`, `disconnect_leaves_no_upload` (allocated_size = sum over the other writers), C28 `released_on_close_or_abort`, `abort_always_releases`, `lost_connection_releases_space` |
 | quantifier: histories over several SIs / share numbers, overlapping out-of-order writes | all of the above are for all histories (`invariant_holds`, `reachable_invariants`); no bounds |
 | `write()` answers "finished" iff every byte of the allocated size is written (the HTTP server closes the upload on it — seeded C22-d) | `write_finished_iff_complete`, `http_patch_closes_only_complete` |
-| that the timeout fires after exactly 30·60 s of no write | model constant; correspondence only (boundaries 1799/1800/1801 s generated) |
+| a timed-out upload = one without a write for 30·60 s | `timeout_exactly_30_minutes_after_last_write` (after a write attempt through a live handle the upload survives a clock advance of `dt` iff `dt < 1800`), `timeout_window` (every upload in progress has its deadline in `(now, now+1800]`, in every reachable state); the value 1800 is pinned to the constants of `BucketWriter.__init__` / `write` by `layout_constants` |
 -/
 namespace Tahoe.C22
 open Tahoe.Base.File Tahoe.Storage.Imm Tahoe.Generated.Storage
@@ -34,7 +35,8 @@ open Tahoe.Base.File Tahoe.Storage.Imm Tahoe.Generated.Storage
 theorem layout_constants :
     imm_LEASE_SIZE = 72 ∧ imm_DATA_OFFSET = 12 ∧ imm_HEADER_SIZE = 12 ∧ imm_NEWEST_SCHEMA_VERSION = 2 ∧
     imm_SCHEMA_VERSIONS = [1, 2] ∧ lease_IMMUTABLE_SIZE = 72 ∧
-    header 10 = imm_HEADER_SAMPLE_10 ∧ header (2 ^ 32 + 5) = imm_HEADER_SAMPLE_BIG := by
+    header 10 = imm_HEADER_SAMPLE_10 ∧ header (2 ^ 32 + 5) = imm_HEADER_SAMPLE_BIG ∧
+    imm_BW_TIMEOUT_INIT = [30 * 60] ∧ imm_BW_TIMEOUT_WRITE = [30 * 60] := by
   decide
 
 /-! a concrete history used by the `example`s: two shares allocated, out-of-order overlapping
@@ -297,6 +299,7 @@ theorem visible_fstep (s : Server) (h : WF s) (op : FOp) (ok : FOpOk op) (k : Ke
     exact (allocate_effect s h si shs size rec ok free order).2.1 k
   | disconnect c =>
     simp only [fstep, fclosesKey, Bool.or_false, visible, disconnectOp, (wf_foldl_abort _ s h).2]
+  | restart => simp [fstep, fclosesKey, visible, restartOp]
 
 /-- **visible_iff_closed over Foolscap histories**: after any history of direct calls, Foolscap
     allocations on connections and connection losses from an empty server, a share is visible iff
@@ -447,6 +450,41 @@ example :
     (writeOp s 0 2 [3, 4]).2 = .ok false ∧ visible (httpWriteOp s 0 2 [3, 4]).1 (0, 0) = false ∧
     (writeOp (writeOp s 0 2 [3, 4]).1 0 0 [1, 2]).2 = .ok true ∧
     readOp (httpWriteOp (httpWriteOp s 0 2 [3, 4]).1 0 0 [1, 2]).1 (0, 0) 0 9 = some [1, 2, 3, 4] := by decide
+
+/-- **timeout_window**: in every reachable state every upload in progress has its timeout strictly in
+    the future and at most 30 minutes away (so no upload survives 30 minutes without a write, and the
+    clock never removes an upload before its deadline). -/
+theorem timeout_window (ro : Bool) (rs : Nat) (ops : List FOp) :
+    let s := frun (Server.empty ro rs) ops
+    ∀ e ∈ s.incoming, s.now < e.2.1.deadline ∧ e.2.1.deadline ≤ s.now + 30 * 60 :=
+  wft_frun _ (by simp [WFT, Server.empty]) ops
+
+/-- **timeout_exactly_30_minutes_after_last_write**: in every reachable state, after a write attempt
+    through a live handle (accepted or rejected — `_timeout.reset(30*60)` comes first), the upload
+    is still in progress after the clock advances by `dt` iff `dt < 30·60`. -/
+theorem timeout_exactly_30_minutes_after_last_write (ro : Bool) (rs : Nat) (ops : List FOp)
+    (ok : ∀ o ∈ ops, FOpOk o) (wid off : Nat) (data : Bytes) (k : Key) (w : Writer) (f : File) (dt : Nat) :
+    let s := frun (Server.empty ro rs) ops
+    findWid wid s.incoming = some (k, (w, f)) →
+    (findWid wid (advanceOp (writeOp s wid off data).1 dt).incoming).isSome = decide (dt < 30 * 60) := by
+  intro s hf
+  obtain ⟨_, hh⟩ := reachable_invariants ro rs ops ok
+  have hh1 : WFH (writeOp s wid off data).1 := wfh_writeOp s hh wid off data
+  have hwid : w.wid = wid := (findWid_mem wid _ _ hf).2
+  simp only [advanceOp]
+  rw [findWid_filter _ wid _ hh1.widNodup]
+  simp only [writeOp, hf, setK, findWid, bwWrite_wid, hwid, ↓reduceIte, bwWrite_deadline]
+  by_cases hd : dt < 30 * 60
+  · have : s.now + dt < s.now + 1800 := by omega
+    simp [hd, this]
+  · have : ¬ (s.now + dt < s.now + 1800) := by omega
+    simp [hd, this]
+
+example :
+    let s := frun (Server.empty false 0) [.allocConn 1 0 [0] 4 exRec 1000 [], .direct (.advance 1000)]
+    (findWid 0 (advanceOp s 799).incoming).isSome = true ∧ (findWid 0 (advanceOp s 800).incoming).isSome = false ∧
+    (findWid 0 (advanceOp (writeOp s 0 9 [1]).1 1799).incoming).isSome = true ∧
+    (findWid 0 (advanceOp (writeOp s 0 9 [1]).1 1800).incoming).isSome = false := by decide
 
 /-- the same for the 30-minute timeout: once the clock passes an upload's deadline the upload is
     gone (file and reservation), nothing becomes visible, and uploads whose deadline has not
